@@ -145,6 +145,18 @@ def _judge_plan(mon, rng, nprng, ri, src, dst, kind, label, ttol, stol, wit, sig
         except Exception as ex:
             mon.fail("paste==warp", wit({"dtype": dtype, "roi_src": _sl(ri.roi_src), "roi_dst": _sl(ri.roi_dst), "exc": ex}), key="paste-regions-incompatible", cls=dtype)
             continue
+        if dtype in ("uint8", "float32", "int8", "bool") and (H + W + ny) % 3 == 0 and not (np.dtype(dtype).kind == "f" and nodata is None):  # (without a nodata value warp_affine leaves zeros, rio_reproject NaN: a convention, not judged)
+            # the library's other way of asking for the same warp: pixel-to-pixel, with the planned dst -> src affine (warp_affine); it has to be the same image
+            from affine import Affine as _A
+            from odc.geo.warp import warp_affine
+
+            out2 = np.zeros((ny, nx), dtype=dtype)
+            _, e2 = call(warp_affine, gen.array_form(data.copy(), "plain"), out2, _A(*label["P"]), "nearest", src_nodata=None, dst_nodata=nodata)
+            if e2 is not None:
+                mon.fail("paste==warp", wit({"dtype": dtype, "exc": e2, "via": "warp_affine"}), key="warp-raises", cls=dtype)
+            else:
+                mon.check(bool(np.array_equal(out2, exp, equal_nan=np.dtype(dtype).kind == "f")), "paste==warp_affine", lambda: wit({"dtype": dtype, "nodata": nodata, "roi_src": _sl(ri.roi_src), "roi_dst": _sl(ri.roi_dst),
+                          "pixels_differ": int((out2 != exp).sum())}), key="paste-differs-from-warp", cls=f"{dtype}|{'mirror' if (P[0, 0] < 0 or P[1, 1] < 0) else 'plain'}", sig=hsig(sig, dtype, "wa"))
         same = np.array_equal(out, exp, equal_nan=np.dtype(dtype).kind == "f")
         mon.check(bool(same), "paste==warp", lambda: wit({"dtype": dtype, "nodata": nodata, "roi_src": _sl(ri.roi_src), "roi_dst": _sl(ri.roi_dst), "pixels_differ": int((out != exp).sum()),
                   "warp": out, "paste": exp}), key="paste-differs-from-warp", cls=f"{dtype}|{cls_place}|{'mirror' if (P[0, 0] < 0 or P[1, 1] < 0) else 'plain'}", sig=hsig(sig, dtype),
